@@ -573,9 +573,7 @@ def _fn_eval(parsed, impl, ambiguous, text, flags, ver, s, short):
     for name, r in res.items():
         if r[0] == 'escape':
             out.append((f'{name}/{r[1]}', 'a value or an XPath error', r[2]))
-    # lang-level verdict first: what the translated pattern itself says about this subject
-    lang = _eval_one(parsed, impl, flags if 'q' not in flags else flags, s, True, ambiguous) if impl is not None else None
-    lang_model = lang[3] if lang else None
+    lang_level = False
     if nullable:
         for name in ('tokenize', 'replace', 'analyze-string'):
             r = res[name]
@@ -586,17 +584,17 @@ def _fn_eval(parsed, impl, ambiguous, text, flags, ver, s, short):
         r = res['matches']
         if r[0] == 'err':
             out.append((f'matches/unexpected-error:{r[1]}', 'a boolean', r[1]))
-        return out, lang_model
+        return out, lang_level
     for name, r in res.items():
         if r[0] == 'err':
             out.append((f'{name}/unexpected-error:{r[1]}', 'a value', r[1]))
     if any(r[0] != 'ok' for r in res.values()):
-        return out, lang_model
+        return out, lang_level
     M, T, RP, RB, A = res['matches'][1], res['tokenize'][1], res['replace'][1], res['replace[]'][1], res['analyze-string'][1]
     # mutual consistency
     if A and A[0][0] == 'bad-structure':
         out.append(('analyze-string/structure', 'match / non-match children only', A[0][1]))
-        return out, lang_model
+        return out, lang_level
     if ''.join(t for _, t in A) != s:
         out.append(('analyze-string/concat', s, ''.join(t for _, t in A)))
     if any(t == '' for _, t in A):
@@ -611,27 +609,41 @@ def _fn_eval(parsed, impl, ambiguous, text, flags, ver, s, short):
     want_rb = ''.join(('[$0]' if qf else '[' + t + ']') if m else t for m, t in A)
     if RB != want_rb:
         out.append(('replace-vs-analyze-string', want_rb, RB))
-    # against the reference (skipped when the translated pattern itself already disagrees on this subject)
-    if lang is None:
-        want = _ref_result(parsed, flags, s, True)[1] is not None
-        if M != want:
-            out.append(('matches-vs-reference', want, M))
-        if not ambiguous:
-            wp = _ref_partition(parsed, flags, s)
+    # against the reference - unless the translated pattern itself (translate_pattern + re, the business of the
+    # xpath check) already partitions this subject differently from the reference
+    if not ambiguous:
+        wp = _ref_partition(parsed, flags, s)
+        if impl is not None and _py_partition(impl.compiled, s) != wp:
+            lang_level = True
+        else:
+            if M != any(m for m, _ in wp):
+                out.append(('matches-vs-reference', any(m for m, _ in wp), M))
             if A != wp:
-                model = None
-                for name, opts in _MODELS:
-                    try:
-                        if _ref_partition(parsed, flags, s, **opts) == A:
-                            model = name
-                            break
-                    except R.Undecided:
-                        pass
-                if model:
-                    lang_model = model
-                else:
-                    out.append(('analyze-string-vs-reference', wp, A))
-    return out, lang_model
+                out.append(('analyze-string-vs-reference', wp, A))
+    else:
+        want = _ref_result(parsed, flags, s, True)[1] is not None
+        if impl is not None and (impl.compiled.search(s) is not None) != want:
+            lang_level = True
+        elif M != want:
+            out.append(('matches-vs-reference', want, M))
+    return out, lang_level
+
+
+def _py_partition(compiled, s):
+    out, k, n = [], 0, len(s)
+    while k < n:
+        m = compiled.search(s, k)
+        if m is None:
+            break
+        if m.end() == m.start():
+            raise R.Undecided('zero-length match inside a non-empty string')
+        if m.start() > k:
+            out.append([False, s[k:m.start()]])
+        out.append([True, s[m.start():m.end()]])
+        k = m.end()
+    if k < n:
+        out.append([False, s[k:]])
+    return out
 
 
 def judge_fn(case, rec: Recorder | None = None) -> list[Disc]:
@@ -704,7 +716,7 @@ def judge_fn(case, rec: Recorder | None = None) -> list[Disc]:
             except R.Undecided:
                 pass
             if r[1]:
-                classes.append('fn:lang-level-known-model')
+                classes.append('fn:reference-comparison-left-to-xpath-check')
         if rec is not None:
             rec.case(['fn', text, flags, ver, s], nontrivial=nontriv, classes=classes,
                      sample={'check': 'fn', 'pattern': text, 'flags': flags, 'xsd_version': ver, 'subject': s})
